@@ -159,6 +159,7 @@ let parse_op (ws : string list) : map_op =
   | "shrinktofit" -> OpShrinkToFit
   | "retain" -> OpRetain (List.map zs (rest 2), z 1)
   | "extend" | "fromiter" -> OpExtend (List.map parse_kv3 (rest 1))
+  | "extendp" -> OpExtend (List.map parse_kv3 (rest 2))              (* the iterator panics after (nth 1) pairs *)
   | "drain" | "forget_drain" | "forget_iter" -> OpDrain (n 1)
   | "extractif" | "forget_extractif" -> OpExtractIf (List.map zs (rest 2), n 1)
   | "forget_entry" -> OpContains (z 1)
@@ -1035,7 +1036,9 @@ let () =
          let pred_panic = (match armws with
            | [["predpanic_nth"; k]] when List.mem opname ["retain"; "extractif"] -> (try Some (int_of_string k) with _ -> None)
            | _ -> None) in
-         let other_arm = other_arm && pred_panic = None in
+         (* a panicking Into conversion in the entry_ref API is modelled (Model/PanicOps2.v) *)
+         let into_panic = (armws = [["intopanic"]]) && List.mem opname ["eref_or_insert"; "eref_insert"; "eref_drop"] in
+         let other_arm = other_arm && pred_panic = None && not into_panic in
          let lawful = not (is_calldep cfg.rule) && cfg.eqrule = "lawful" in
          let hf = hash_of None in
          let hasher (e : kv) = hf e.k_id in
@@ -1093,6 +1096,19 @@ let () =
                          | Fail e -> Fail e
                          | Ok (_, evd) -> bump branch "from_iter"; Ok ((t1, OutUnit), evs @ evd))))
                 | _ -> Fail UB_unreachable)
+             else if opname = "extendp" then begin
+               bump branch "extend_iterator_panic_model";
+               (match op with
+                | OpExtend items ->
+                  m_extend_p cfg.backend cfg.tsize cfg.talign cfg.needs_drop rehash_guard_unconditional (hash_of panic_key) refuse
+                    tpre items (nat_of_int (int_of_string (List.nth opws 1)))
+                | _ -> Fail UB_unreachable)
+             end else if into_panic then begin
+               bump branch "into_panic_model";
+               let act = (match opname with
+                 | "eref_or_insert" -> ERefOrInsert | "eref_insert" -> ERefInsert (zs (List.nth opws 3)) | _ -> ERefDrop) in
+               eref_into_p_step cfg.backend (hash_of panic_key) tpre (zs (List.nth opws 1)) act
+             end
              else if pred_panic <> None then begin
                bump branch "closure_panic_model";
                let k = (match pred_panic with Some k -> k | None -> 0) in
@@ -1241,6 +1257,27 @@ let () =
            let contents = occupants tpost in
            if opname = "fromiter" && ret <> Some OutUnwind then spec := [];
            (match ret with
+            | Some OutUnwind when opname = "extendp" ->
+              (* the iterator of extend panicked after p pairs: the map must hold EXACTLY the pre-state
+                 plus those p pairs inserted in order (C04q_extend_iterator_panic) *)
+              let p = int_of_string (List.nth opws 1) in
+              let rec take n l = (match l with x :: r when n > 0 -> x :: take (n - 1) r | _ -> []) in
+              (match op with
+               | OpExtend items ->
+                 (match spec_accepts !spec (OpExtend (take p items)) OutUnit with
+                  | Some s' ->
+                    if sorted_kvs s' <> sorted_kvs contents then
+                      say "A-FAIL %s: after the extend iterator panicked the map is not `pre-state + the pairs handed over`: expected [%s] impl [%s]" where
+                        (String.concat "," (sorted_kvs s')) (String.concat "," (sorted_kvs contents))
+                  | None -> ())
+               | _ -> ());
+              spec := contents
+            | Some OutUnwind when into_panic ->
+              (* a panicking Into conversion: nothing may have changed *)
+              if sorted_kvs !spec <> sorted_kvs contents then
+                say "A-FAIL %s: a panicking Into conversion changed the map: before [%s] after [%s]" where
+                  (String.concat "," (sorted_kvs !spec)) (String.concat "," (sorted_kvs contents));
+              spec := contents
             | Some OutUnwind ->
               (* from_iter: the harness installs the new map and then drops the old one: a panic inside the
                  construction leaves the old map, a panic while dropping the OLD map leaves the new one *)
